@@ -37,6 +37,12 @@ def _triple_and_epidata_lists(fi: FuncInfo) -> Tuple[str, str]:
     if len(rets) == 1 and isinstance(rets[0].value, ast.Tuple) and len(rets[0].value.elts) == 3 \
             and all(isinstance(e, ast.Name) for e in rets[0].value.elts):
         return rets[0].value.elts[1].id, rets[0].value.elts[2].id
+    if len(rets) == 1 and isinstance(rets[0].value, ast.Call) and len(rets[0].value.args) == 3 and not rets[0].value.keywords \
+            and all(isinstance(e, ast.Name) for e in rets[0].value.args) and isinstance(rets[0].value.func, ast.Name):
+        return rets[0].value.args[1].id, rets[0].value.args[2].id          # a namedtuple of (var, triples, epidata)
+    if len(rets) == 1 and isinstance(rets[0].value, ast.Tuple) and len(rets[0].value.elts) == 2 \
+            and all(isinstance(e, ast.Name) for e in rets[0].value.elts):
+        return rets[0].value.elts[0].id, rets[0].value.elts[1].id
     singles: Dict[str, Set[str]] = {}
     pairs: Dict[str, Set[str]] = {}
     for n in walk_local(fi.node):
@@ -69,6 +75,15 @@ def r1(ctx: Ctx) -> RuleReport:
             for i, e in enumerate(n.targets[0].elts):
                 if isinstance(e, ast.Name):
                     rec[e.id] = (id(n.value), i)
+    # a named result:  nested = _interpret_node(...);  nested.triples / nested.epidata
+    rets_ = [n for n in walk_local(fi.node) if isinstance(n, ast.Return) and isinstance(n.value, ast.Call) and isinstance(n.value.func, ast.Name)]
+    if rets_ and rets_[0].value.func.id in fi.module.classes:
+        cdef = fi.module.classes[rets_[0].value.func.id].node
+        fields = [b.target.id for b in cdef.body if isinstance(b, ast.AnnAssign) and isinstance(b.target, ast.Name)]
+        for n in walk_local(fi.node):
+            if isinstance(n, ast.Assign) and isinstance(n.targets[0], ast.Name) and isinstance(n.value, ast.Call) and norm(n.value.func) == fi.name:
+                for i, f_ in enumerate(fields):
+                    rec[f'{n.targets[0].id}.{f_}'] = (id(n.value), i)
     cfg = CFG(fi.node)
     pm = ctx.repo.parent_map(fi.node)
 
@@ -185,6 +200,10 @@ def r1(ctx: Ctx) -> RuleReport:
         base = recv.value.value if isinstance(recv, ast.Subscript) and isinstance(recv.value, ast.Subscript) else None
         shared = En in fi.params and any(isinstance(c, ast.Call) and norm(c.func) == fi.name and any(norm(a) == En for a in c.args)
                                          for c in walk_local(fi.node))
+        raw = p.func.value
+        raw_base = raw.value.value if isinstance(raw, ast.Subscript) and isinstance(raw.value, ast.Subscript) else None
+        if raw_base is not None and rec.get(norm(raw_base), (0, 0))[1] == 2:
+            base, recv = raw_base, raw
         shape = base is not None and (rec.get(norm(base), (0, 0))[1] == 2 or (shared and norm(base) == En) or (
             isinstance(base, ast.Subscript) and isinstance(base.value, ast.Call) and norm(base.value.func) == fi.name
             and try_fold(base.slice) == (True, 2)))
